@@ -40,11 +40,14 @@ package formatter
 // The rendered posting line: the configured indent first; when the posting has an amount, at least two blanks separate
 // it from the account (so the amount is read back as an amount), and no padding is ever negative.
 //@ pred AcctEnd(po, indent, n) := n == len(indent) + ite(po.Status == 1 || po.Status == 2, 2, 0) + ite(po.Virtual == 1 || po.Virtual == 2, 2, 0) + len(po.Account.Name)
+// AcctText: what is written before the amount: indent, status mark, account name in its brackets.
+//@ pred AcctText(po, indent) := concat(concat(concat(concat(indent, ite(po.Status == 2, "* ", ite(po.Status == 1, "! ", ""))), ite(po.Virtual == 2, "(", ite(po.Virtual == 1, "[", ""))), po.Account.Name), ite(po.Virtual == 2, ")", ite(po.Virtual == 1, "]", "")))
 //@ func formatPostingWithOpts
 //@   props C04 C05 C06
 //@   requires posting != nil && FormatsOK(commodityFormats)
 //@   ensures [C05:indent_first] hasprefix(result, indent)
 //@   ensures [C04,C05:two_blanks] posting.Amount != nil ==> (forall n int :: {result[n]} AcctEnd(posting, indent, n) ==> len(result) >= n + 2 && result[n] == ' ' && result[n + 1] == ' ')
+//@   ensures [C05:amount_column] posting.Amount != nil && alignAmounts && alignment.AccountCol > 0 ==> spaces__1 == ite(alignment.AccountCol - rcount(AcctText(posting, indent)) >= 2, alignment.AccountCol - rcount(AcctText(posting, indent)), 2)
 //@ trusted CalculateAlignmentWithGlobal
 //@   effects none
 //@   ensures result.AccountCol == accountCol
@@ -93,7 +96,7 @@ package formatter
 //@ func FormatDocumentWithOptions
 //@   props C04 C05 C06
 //@   requires journal != nil && len(content) < 4294967295 && JournalLinesOK(journal) && FormatsOK(commodityFormats)
-//@   requires [C04:journal_of_content] parsedFrom(journal) == content
+//@   requires [C04,C05:journal_of_content] parsedFrom(journal) == content
 //@   ensures [C04:nonposting_only_trimmed] forall e int :: 0 <= e && e < len(result) ==> postingLines[result[e].Range.Start.Line] || result[e].NewText == ""
 //@   ensures [C05:single_line] forall e int :: 0 <= e && e < len(result) ==> result[e].Range.Start.Line == result[e].Range.End.Line
 //@   loop 1 invariant 0 - 1 <= rangeindex && rangeindex <= len(journal.Transactions) - 1 && MapOK(mapper, content) && postingLines != nil && fresh(postingLines) && opts.IndentSize > 0 && FormatsOK(commodityFormats)
